@@ -44,6 +44,17 @@ def c15_1(ctx, r):
             r.check(("<ClusterConfig.pipeline_stage_num> is None", False) in forms, "only submissions that are pipeline stages trigger", key_of(fn, "trigger guard"), s.loc,
                     f"the trigger is guarded by {sorted(f for f, p in forms)}", guards=sorted(("" if p else "not ") + f for f, p in forms))
             r.check(not ctx.cfg(fn).in_loop(n), "the trigger is not in a loop", key_of(fn, "trigger in loop"), s.loc, "the trigger lies on a cycle", "each stage is submitted exactly once")
+            others = sorted(("" if p else "not ") + f for f, p in forms if "pipeline_stage_num" not in f)
+            r.check(not others, "nothing but `is a pipeline stage` decides the trigger", key_of(fn, "trigger depends on other conditions"), s.loc,
+                    f"the trigger also depends on {others}: for some completed stages (other settings) the next stage is never submitted and the pipeline never completes", "stage k+1 is configured and submitted")
+    # every completion reaches the decision: no return between mark_complete() and the `is a pipeline stage` test
+    from ..lib import always_followed_by
+
+    tests = [n for n in ctx.cfg(fn).nodes if n.kind == "test" and "pipeline_stage_num" in ctx.src(n.ast)]
+    for m in mc:
+        r.check(bool(tests) and always_followed_by(ctx, fn, m, tests, kinds=NORMAL_KINDS), "every mark_complete() is followed by the pipeline-stage decision", key_of(fn, "completion path skips the trigger"), fn.loc(m.stmt),
+                "a path of _handle_completion marks the submission complete and returns without reaching the `pipeline_stage_num is not None` decision: a stage completing on that path (e.g. with reports disabled) "
+                "never triggers submit-next-stage - pipeline.json stays at stage k, stage k+1 is never submitted", "stage k+1 is configured and submitted only after stage k's submission is complete")
     r.check(len(sp) == 1, "exactly one trigger site", key_of(fn, "trigger sites"), fn.loc(), f"{len(sp)} trigger sites")
     # nobody else spawns it
     for f2 in ctx.ix.all_functions():
@@ -368,3 +379,32 @@ def c15_11(ctx, r):
     from .c03 import c03_4
 
     c03_4(ctx, r)
+
+
+@rule(P, "C15.12", "T6", "pipeline.json is written only by the steps that advance or create the pipeline - loading it (status, any CLI start-up) never rewrites it", min_obligations=3)
+def c15_12(ctx, r):
+    """pipeline.json has no lock and no version; its consistency rests on there being one writer at a time: the process that creates the
+    pipeline, then the single completing stage that calls submit-next-stage.  A write on the *load* path (constructor, load(), a property)
+    lets any concurrent reader - `jade pipeline status` - put back a stale copy: stage_num goes backwards, the running stage's notification is
+    then rejected and the later stages are never submitted.  Decided: who may reach PipelineManager._serialize."""
+    ser = ctx.fn(f"{PM}._serialize", "C15.12")
+    allowed = {f"{PM}.create", f"{PM}._submit_next_stage"}
+    callers = {}
+    for s in ctx.cg.call_sites_of(ser.qual):
+        callers.setdefault(s.fn.short, []).append(s)
+    if not callers:
+        raise AnalysisError("C15.12", "no caller of PipelineManager._serialize")
+    for short, sites in sorted(callers.items()):
+        f = sites[0].fn
+        r.check(short in allowed, f"{short} may write pipeline.json", key_of(f, "writes pipeline.json"), sites[0].loc,
+                f"{short} calls _serialize(): pipeline.json is rewritten outside the create / advance steps (only {sorted(allowed)} may). The file has no lock, so a process that merely loads the pipeline "
+                "can write back a stale copy over a stage advance made in between", "stage k+1 is submitted once, after stage k completes")
+    # other writers of the file: open(self._config_file, "w") / dump_data(..., self._config_file) outside _serialize
+    cls = ctx.cls(PM, "C15.12")
+    for m in cls.methods.values():
+        if m is ser or m.kind == "staticmethod":
+            continue
+        w = [c for c in iter_own(m.node) if isinstance(c, ast.Call) and any("_config_file" in ctx.src(a) for a in c.args) and (ctx.src(c.func) in ("open", "dump_data") or ctx.src(c.func).endswith(".write_text"))
+             and (ctx.src(c.func) != "open" or any(isinstance(a, ast.Constant) and isinstance(a.value, str) and set(a.value) & set("wa+") for a in list(c.args[1:]) + [k.value for k in c.keywords]))]
+        r.check(not w, f"{m.short} does not write pipeline.json itself", key_of(m, "direct pipeline.json write"), m.loc(w[0]) if w else m.loc(m.node), f"{m.short} writes the pipeline file directly: `{ctx.src(w[0]) if w else ''}`",
+                "stage k+1 is submitted once")
